@@ -26,10 +26,26 @@ CHECKS = {
    "runtime monitor: reference-conversion oracle over generated compatible type pairs, refusal oracle over incompatible pairs",
    "Generates structurally compatible (S,T) Go type pairs and values, runs ConvertFrom both ways and DecodeFrom, compares with a reference conversion written in the harness; incompatible pairs (bare and nested) must be refused. Held on the pairs observed.",
    "No verdict is asked for narrowing or cross-signedness integer conversions (the statement promises neither).", "DESIGN.md section 3 C20"),
+ "C04": ("bus", "exploration",
+   "runtime monitor: exactly-once / own-answer oracle over recorded call histories with unique tokens, callee-side execution counters, raw-frame injection with FIFO barriers; Go race detector",
+   "Real directory server + freshly generated Probe service in-process; concurrent callers over several sessions (and two proxies of one bus.Cache), method bodies parked and released in PRNG order so replies cross, context cancellations, and a raw connection sending every message type at real actions. Every call must return exactly f(own token, own arg) or an error, with per-token execution counts 1 / <=1 / 0 as the property demands. Held on the histories observed (calls, max in flight and reply-order inversions are reported).",
+   "Trusts the harness service implementation's counters and the per-connection FIFO + mailbox FIFO argument used as 'processed' barrier. Race reports are recorded, the verdict comes from the behavioural monitor.", "DESIGN.md section 3 C04"),
  "C07": ("codec", "exploration",
    "runtime monitor: per-input panic / allocation (runtime.MemStats TotalAlloc) / CPU-time (getrusage) accounting with an in-process resource guard; child-process crash attribution",
    "Feeds random bytes, valid encodings with every length/count/signature-length field replaced by hostile values, and hostile signatures to every decoder entry point (message, dynamic value, signature reader and reflection decoder for random signatures, MetaObject, ObjectReference, ServiceInfo, CapabilityMap, generated stub argument decoders through Receive, signature and IDL parsers); each input must return a value or an error within 64 MiB + 64 B/byte of allocation and 5 s of CPU. Held on the inputs observed.",
    "Inputs are <= 64 KiB; budgets are deliberately generous (largest legitimate single allocation is one 10 MiB cap). The directory stub's own argument decoders are reached through ReadServiceInfo and, over the wire, by C12.", "DESIGN.md section 3 C07"),
+ "C10": ("bus", "exploration",
+   "runtime monitor: exactly-once / per-sender-order / filter-subsequence oracle over received message logs; quiescence detector for loss; Go race detector",
+   "N concurrent senders on one real endpoint over six transports (harness stream with yields, net.Pipe, unix, tcp, tls, fd-passing pipe); payload content and length are a keyed function of (sender, seq); the receiving endpoint's 'all' handler must see every message once, intact, per-sender in order, and every other handler exactly its filter applied to that arrival sequence. Held on the interleavings observed (sender switches at the receiver are counted).",
+   "Queues are sized for the whole traffic (the property conditions on queue room). Loss is decided by process quiescence, not by a timeout.", "DESIGN.md section 3 C10"),
+ "C11": ("bus", "fault_enumeration",
+   "fault injection at every I/O operation of a scripted scenario on a harness stream + quiescence detector + callback/channel monitors; Go race detector",
+   "Enumerates, for K in {1,3,8} concurrent calls plus one subscription and a disconnect callback, a fault (EOF / reset / short count + error) at every client-side I/O operation index, a peer close after every output byte count, a local Close() at every operation, (thorough) pairs of faults, and the early-reply schedule, each under whole and fragmented reads. Oracle: every call returns, success only with its own reply, later calls fail, events channel closed, callback exactly once. The enumeration over operation indexes is complete for these scenarios; schedules within a plan are sampled.",
+   "The harness stream models a failed connection as failing all later operations and waking the pending read (like a reset socket). 'Never returns' is decided by process quiescence.", "DESIGN.md section 3 C11"),
+ "C17": ("bus", "exploration",
+   "runtime monitor: per-handler closer/queue-close counters with logical-clock stamps, monitor table updated atomically with MakeHandler; quiescence detector; child-crash detection; Go race detector (races in bus/net are violations)",
+   "2-12 goroutines do PRNG-chosen MakeHandler / RemoveHandler / self-removing filters / peer frames / Close / peer close on one real endpoint over a harness stream. At quiescence every handler registered before shutdown has closer==1 then queue closed once, none is consulted after its closer, removing unknown or removed ids fails, ids are not handed out while held; panics (double close, send on closed channel) are child crashes; deadlocks are decided by process quiescence. Held on the interleavings observed.",
+   "Closers and filters of the harness never call back into the endpoint (documented as forbidden).", "DESIGN.md section 3 C17"),
  "C18": ("codec", "exploration",
    "runtime monitor: GenerateIDL/ParseIDL round-trip oracle over generated meta-object packages; panic/crash monitor over arbitrary text",
    "Generates packages of meta-objects (shared and nested structs, template-style names, tuples, all scalar kinds, m o X, uids up to 2^32-1), prints them with GenerateIDL, parses them back with ParseIDL and compares uids, names and signatures field by field; arbitrary text (random bytes, token soup, mutated valid IDL) must give a package or an error (panics recovered in-process, stack overflow seen as a child crash). Held on the packages and texts observed.",
@@ -58,6 +74,8 @@ m = {
  "engines": [
    {"name": "codec", "path": "harness/cmd/codec", "serves_properties": ["C01","C02","C03","C07","C08","C09","C18","C20"],
     "kind_free_text": "in-process differential monitors of the real codecs against an independent reference codec; child process per shard, crash attribution by progress marks"},
+   {"name": "bus", "path": "harness/cmd/bus", "serves_properties": ["C04","C06","C10","C11","C13","C14","C15","C16","C17","C19"],
+    "kind_free_text": "real endpoints / clients / servers run in-process under -race over harness-owned streams, listeners and service implementations; history and counter monitors; goroutine-state quiescence detector"},
  ],
  "checks": [],
  "not_applicable": [],
